@@ -142,8 +142,29 @@ class State:
     def assume(self, c):
         if c is True or (z3.is_true(c) if isinstance(c, z3.ExprRef) else False):
             return self
+        if self.qvars and _mentions(c, self.qvars):
+            raise OutsideSubset("a fact about a bound variable would escape its binder")
         self.pc.append(c)
         return self
 
     def note(self, s):
         self.trace_notes.append(s)
+
+
+def _mentions(expr, consts):
+    ids = {c.get_id() for c in consts}
+    seen = set()
+    todo = [expr]
+    while todo:
+        x = todo.pop()
+        i = x.get_id()
+        if i in seen:
+            continue
+        seen.add(i)
+        if i in ids:
+            return True
+        if z3.is_quantifier(x):
+            todo.append(x.body())
+        elif z3.is_app(x):
+            todo.extend(x.children())
+    return False
